@@ -29,6 +29,13 @@ def run(ctx):
     rng = ctx.rng
     cases = graphs.case_stream(rng, 50 if ctx.quick else 400, max_e=6 if ctx.quick else 8, accepted_fraction=1.0)
     cases = [c for c in cases if c["accepted"]]
+    # vertex labels that differ by exactly a power of two (8..128), in every run
+    for nm, edges in gen.collision_labelled(rng):
+        for _ in range(2):
+            c2 = graphs.make_case(rng, edges, rng.randint(1, 6), want=True)
+            if c2 is not None:
+                c2 = dict(c2); c2["name"] = nm; cases.append(c2)
+    cases = [c for c in cases if c["accepted"]]
     # the same topology again with other weights / other D (history inside one process)
     extra = []
     for c in cases[:: 3]:
@@ -36,6 +43,14 @@ def run(ctx):
             if c2 is not None and c2["accepted"]:
                 c2 = dict(c2); c2["name"] = c["name"] + "+rebuild"; extra.append(c2)
     cases += extra
+    # one entry per external LEG: vertices listed twice or three times in `externals` (the SET of external vertices is what matters)
+    for c in list(cases[:: 4]):
+        if c["ext"]:
+            ext = list(c["ext"]) + [rng.choice(c["ext"]) for _ in range(rng.choice([1, 2, 3, 5, 8]))]
+            rng.shuffle(ext)
+            dod, Lf, table = oracle.table_oracle(c["edges"], c["weights"], c["massive"], ext, c["D"])
+            if not oracle.divergent_subsets(table):
+                cases.append(dict(c, ext=ext, table=table, dod=dod, loops=Lf, accepted=True, name=c["name"] + "+repeated_externals"))
     # edges with a tiny weight: proper subsets with 0 < omega < 2^-52 are accepted and dominate J
     for tiny in (2.0 ** -60, 2.0 ** -55, 1e-20):
         for edges, w, massive, ext, D in (([(0, 1), (1, 2), (2, 0)], [tiny, 1.0, 1.0], [True, False, False], [0, 1, 2], 3),
@@ -72,6 +87,44 @@ def run(ctx):
         if not oracle.divergent_subsets(table):
             cases.append(dict(edges=edges, weights=w, massive=massive, ext=ext, D=D, table=table, dod=dod, loops=Lf, accepted=True,
                               name="parallel_equal_weights_mixed_masses"))
+    # a self-loop sitting on an end point of an ordinary edge with the SAME power and mass flag (looks like a parallel partner when only
+    # "both end points are shared" is tested), the ordinary edge first
+    for _ in range(30 if ctx.quick else 150):
+        name = rng.choice(["bubble", "triangle", "sunrise", "bubble_leg", "box"])
+        edges, _, _ = gen.relabel(rng, list(gen.CATALOGUE[name]))
+        i = rng.randrange(len(edges))
+        v = rng.choice(edges[i])
+        edges = list(edges)
+        edges[0], edges[i] = edges[i], edges[0]           # the ordinary partner first, the self-loop last
+        edges.append((v, v))
+        D = rng.randint(1, 3)
+        n = len(edges)
+        massive = [True] * n if rng.random() < 0.7 else [True] + [rng.random() < 0.6 for _ in range(n - 2)] + [True]
+        ext = sorted(set(v2 for e in edges for v2 in e))
+        pair = D / 2.0 + rng.choice([0.25, 0.3, 0.5, 0.7])   # a self-loop alone must converge: weight > D/2
+        w = [pair] + [rng.choice([pair, 0.6, 0.9, 1.1, D / 2.0 + 0.4]) for _ in range(n - 2)] + [pair]
+        dod, Lf, table = oracle.table_oracle(edges, w, massive, ext, D)
+        if not oracle.divergent_subsets(table):
+            ctx.count("family.selfloop_with_equal_weight_neighbour")
+            cases.append(dict(edges=edges, weights=w, massive=massive, ext=ext, D=D, table=table, dod=dod, loops=Lf, accepted=True,
+                              name="selfloop_with_equal_weight_neighbour"))
+    # a mass-momentum SPANNING proper subgraph a few ulps above a logarithmic divergence (its omega does not depend on its own
+    # weights: tune an edge of the complement)
+    for c in list(cases[:: 3]):
+        n = len(c["edges"])
+        sp = [m for m in range(1, (1 << n) - 1) if c["table"][m][1]]
+        if not sp:
+            continue
+        m = rng.choice(sp)
+        e = rng.choice([k for k in range(n) if not m >> k & 1])
+        for delta in (2.0 ** -51, 3 * 2.0 ** -53, 2.0 ** -60):
+            neww = float(Fraction(c["weights"][e]) + c["table"][m][2] - Fraction(delta))
+            if not neww > 0:
+                continue
+            w = list(c["weights"]); w[e] = neww
+            dod, Lf, table = oracle.table_oracle(c["edges"], w, c["massive"], c["ext"], c["D"])
+            if not oracle.divergent_subsets(table):
+                cases.append(dict(c, weights=w, table=table, dod=dod, loops=Lf, accepted=True, name=c["name"] + "+spanning_subgraph_almost_log_divergent"))
     for c in list(cases[:: 4]):
         for delta in (2.0 ** -60, 1e-17, 1e-13):
             t = graphs.near_threshold(rng, c, delta)
@@ -128,6 +181,13 @@ def run(ctx):
                           expected=bad[2], observed=bad[1]); continue
         if b2f(js[0]) != 1.0:
             ctx.violation("J(empty) != 1", r, observed=b2f(js[0]))
+        # the recursion is stated on the STORED omegas: in an accepted table those of all non-empty proper subsets are positive numbers
+        zero_om = [mk for mk in range(1, (1 << n) - 1) if not b2f(a["entries"][mk][3]) > 0]
+        if zero_om:
+            mk = zero_om[0]
+            ctx.violation(f"accepted table stores omega = {b2f(a['entries'][mk][3])!r} for the proper subset {mk:#b} (exact value {float(c['table'][mk][2])!r} > 0): "
+                          f"J(g) = sum_e J(g\\e)/omega(g\\e) does not hold on the stored table", r,
+                          expected=float(c["table"][mk][2]), observed=b2f(a["entries"][mk][3])); continue
         # edge probabilities sum to one (on the implementation's own numbers)
         for mask in range(1, 1 << n):
             s = sum(Fraction(b2f(js[mask ^ (1 << e)])) / (Fraction(b2f(js[mask])) * Fraction(b2f(a["entries"][mask ^ (1 << e)][3])))
@@ -152,3 +212,24 @@ def run(ctx):
         if not (abs(b2f(a["cached"]) - cx) <= (1e-11 + tol + gsens) * abs(cx)):
             ctx.violation(f"cached normalisation {b2f(a['cached'])!r} differs from J(full) Gamma(dod)/prod Gamma(w) pi^(DL/2) = {cx!r}", r,
                           expected=cx, observed=b2f(a["cached"]))
+
+    # ---- the table and the normalisation of a sampler built through the PUBLIC path do not depend on the supplied signature (its shape
+    # included): Graph::build_sampler with a fundamental signature, with surplus columns and with a missing column
+    from .. import kin
+    breqs, binfo = [], []
+    for c, a in [(c, a) for c, a in zip(cases, impl) if a.get("status") == "ok"][: (20 if ctx.quick else 120)]:
+        Sg, _ = kin.fundamental_signature(rng, c["edges"])
+        for variant, sig in (("fundamental", Sg), ("extra_column", [row + [0] for row in Sg]), ("two_extra_columns", [row + [1, -1] for row in Sg]),
+                             ("missing_column", [row[:-1] for row in Sg])):
+            breqs.append(dict(graphs.request(c), op="build", sig=sig)); binfo.append((c, a, variant))
+    for r, b, (c, a, variant) in zip(breqs, run_harness(breqs), binfo):
+        ctx.case(["api", r["edges"], r["weights"] if "weights" in r else None, r["D"], variant], nontrivial=True); ctx.count(f"api_build.{variant}")
+        if b.get("status") != "ok":
+            ctx.violation(f"build_sampler fails ({b.get('status')}) for an accepted graph with a {variant} signature", r, observed=b); continue
+        if b["table"] != a["table"]:
+            ta, tb = a["table"], b["table"]
+            diff = [k for k in ta if ta.get(k) != tb.get(k)] if isinstance(ta, dict) else "table"
+            ctx.violation(f"the table of a sampler built through Graph::build_sampler with a {variant} signature differs from the table of the graph "
+                          f"(fields {diff}): J, omega and the cached normalisation are functions of the graph alone", r,
+                          expected={k: (ta[k] if k != "entries" else "...") for k in diff} if isinstance(diff, list) else None,
+                          observed={k: (tb[k] if k != "entries" else "...") for k in diff} if isinstance(diff, list) else None)
